@@ -1,3 +1,4 @@
+import MuscleModel.Reflector.RouteProofs
 import MuscleModel.Reflector.TravProofsCouple
 import MuscleModel.Reflector.Handlers
 
@@ -336,5 +337,134 @@ def exPM1 : PM := [(1, [{ path := [42], clauses := [[42]], filter := none }])]
 example : pmMinClauses 1 exPM1 = true ∧ pmMinClauses 2 exPM1 = false ∧ kidsNodup 4 exTwoHosts = true ∧
     doTraversal exPM1 true 0 (fun _ _ _ => (true, 1)) exTwoHosts 4 = [[[104]], [[105]]] ∧
     (doTraversal exPM1 true 0 (fun _ _ _ => (true, 1)) exTwoHosts 4).map ownerName = [none, none] := by decide
+
+end Muscle.Props.C05
+
+
+/-!
+# C05, second part — the compiled default route is coherent with the parameters it is compiled from
+
+Lemmas: `Reflector/RouteProofs.lean` (prefix `rt_`).  `Sess.route` (`_defaultMessageRoute`, what `sendMsg` routes with when
+the Message names no keys) is a cache of `buildRoute s.routeKeys s.routeFilts`
+(`PutPathsFromMessage(PR_NAME_KEYS, PR_NAME_FILTERS)` of `_defaultMessageRouteMessage`); the two parameters are set and
+removed separately (`.paramRoute`, `.paramRouteF`, `.unparamRoute`, `.unparamRouteF`).
+`RReach` (RouteProofs.lean): the states reachable from the empty server by attach, detach, ANY `runCmd` (no side
+condition), `pushAll` and pump; `MReach` (MirrorProofs5.lean) is contained in it (`rt_of_mreach`, `Reflector/RouteProofsM.lean`: that file
+cannot be imported here because MirrorProofs1 imports this file).
+`routePairs keys fl cur` = `keys.zip ((List.range keys.length).map (assignedFilt fl cur))`,
+`assignedFilt fl cur i = fl.getD i (fl.getLast?.getD cur)`: item `i` of the filter field, else its last item (bleed-down).
+-/
+
+namespace Muscle.Props.C05
+open Muscle Muscle.Reflector Muscle.Eng.SrvEngine
+
+/-- **Cache coherence.**  In every reachable state every session's compiled route is the one its two parameters
+    compile to; without the keys parameter there are no keys; `hasRouteKeys` (read by `sendMsg`) says whether
+    `params` holds PR_NAME_KEYS (what the C++ reads), and the filter list is present iff `params` holds PR_NAME_FILTERS. -/
+theorem route_cache_coherent (sv : Server) (h : RReach sv) (s : Sess) (hs : s ∈ sv.sessions) :
+    s.route = buildRoute s.routeKeys s.routeFilts ∧
+    (s.hasRouteKeys = false → s.routeKeys = []) ∧
+    s.hasRouteKeys = s.params.contains keyName ∧
+    s.routeFilts.isSome = s.params.contains filtName :=
+  rt_reach_rc h s hs
+
+/-- the invariant is inductive: every single command preserves it from ANY state that has it -/
+theorem route_cache_coherent_step (sv : Server) (sid : Nat) (c : Cmd) (h : RC sv) : RC (runCmd sv sid c) :=
+  rt_runCmd_rc sv sid c h
+
+/-- every command other than the four route-parameter commands leaves the route, both parameters, `hasRouteKeys` and the
+    presence of the two parameter names alone, in EVERY session (the acting one included); any state -/
+theorem data_commands_keep_route (sv : Server) (sid : Nat) (c : Cmd)
+    (hc : match c with
+      | .paramRoute _ | .paramRouteF _ _ | .unparamRoute | .unparamRouteF => False
+      | _ => True) :
+    (runCmd sv sid c).sessions.map rk = sv.sessions.map rk :=
+  rt_runCmd_data sv sid c hc
+
+/-- A Message without keys from a session with a default route is routed with exactly the matcher its two parameters
+    compile to. -/
+theorem default_route_is_parameters (sv : Server) (h : RReach sv) (sid : Nat) (s : Sess) (hs : sv.sess? sid = some s)
+    (hk : s.hasRouteKeys = true) (tag : Nat) :
+    sendMsg sv sid tag [] =
+      route sv sid (buildRoute s.routeKeys s.routeFilts) ("MSG 1234 from=" ++ toString sid ++ " tag=" ++ toString tag) := by
+  have hc := (rt_reach_rc h s (rt_sess?_mem hs)).1
+  simp only [rk] at hc
+  unfold sendMsg
+  rw [hs]
+  simp only [List.isEmpty_nil, Bool.not_true, Bool.false_eq_true, if_false, hk, if_true, hc]
+
+/-- Removing the filter parameter rebuilds the route without filters: afterwards the session has the same keys, no
+    filter list, the route `buildRoute keys none`, and not one entry of it carries a filter. -/
+theorem unparam_filters_drops_filters (sv : Server) (h : RReach sv) (sid : Nat) (s : Sess) (hs : sv.sess? sid = some s) :
+    ∃ s', (runCmd sv sid .unparamRouteF).sess? sid = some s' ∧ s'.routeKeys = s.routeKeys ∧ s'.routeFilts = none ∧
+      s'.route = buildRoute s.routeKeys none ∧ pmNumFilters s'.route = 0 := by
+  obtain ⟨h1, _, _, h4⟩ := rt_reach_rc h s (rt_sess?_mem hs)
+  simp only [rk] at h1 h4
+  have hsid : s.sid = sid := by
+    have := List.find?_some hs
+    simpa using this
+  have hfind : (runCmd sv sid .unparamRouteF).sess? sid =
+      some (if s.params.contains filtName then
+        { s with routeFilts := none, route := buildRoute s.routeKeys none, params := s.params.filter (· ≠ filtName) } else s) := by
+    simp only [runCmd, Server.updSess, Server.sess?]
+    rw [List.find?_map]
+    have : ((fun s => decide (s.sid = sid)) ∘ fun s : Sess =>
+        if s.sid = sid then
+          (if s.params.contains filtName then
+            { s with routeFilts := none, route := buildRoute s.routeKeys none, params := s.params.filter (· ≠ filtName) } else s)
+        else s) = fun s => decide (s.sid = sid) := by
+      funext t
+      simp only [Function.comp]
+      split
+      · split <;> rfl
+      · rfl
+    rw [this]
+    have hs' : List.find? (fun s => decide (s.sid = sid)) sv.sessions = some s := hs
+    rw [hs']
+    simp only [Option.map_some, hsid, if_true]
+  refine ⟨_, hfind, ?_⟩
+  by_cases hp : s.params.contains filtName = true
+  · rw [if_pos hp]
+    exact ⟨rfl, rfl, rfl, (rt_buildRoute_none _).2⟩
+  · have hnone : s.routeFilts = none := by
+      have : s.routeFilts.isSome = false := by rw [h4]; simpa using hp
+      cases hf : s.routeFilts with
+      | none => rfl
+      | some x => rw [hf] at this; simp at this
+    rw [if_neg hp]
+    refine ⟨rfl, hnone, ?_, ?_⟩
+    · rw [h1, hnone]
+    · rw [h1, hnone]; exact (rt_buildRoute_none _).2
+
+/-- `PutPathsFromMessage` without recursion: the keys in order, key `i` paired with `assignedFilt` … `i` -/
+theorem buildRoute_pairs (keys : List Bytes) (fs : Option (List (Option Filt))) :
+    buildRoute keys fs = pmOfKeys (routePairs keys (fs.getD []) none) (some defaultPrefix) :=
+  rt_buildRoute_pairs keys fs
+
+/-- …and pair `i` carries filter item `i` when the filter field has one, its last item otherwise (bleed-down; no
+    filter at all when the field is empty or absent) -/
+theorem buildRoute_pairs_get (keys : List Bytes) (fl : List (Option Filt)) (i : Nat) (hi : i < keys.length) :
+    (routePairs keys fl none).length = keys.length ∧
+    (routePairs keys fl none)[i]? = some (keys[i], if h : i < fl.length then fl[i] else fl.getLast?.getD none) :=
+  ⟨rt_routePairs_length keys fl none, rt_routePairs_get keys fl none i hi⟩
+
+/-! ### examples: a small reachable state (one session; keys `x`, `y` with one filter that bleeds down; then the
+    filter parameter removed) -/
+
+def exRtSv1 : Server := (attach {} 0 [104]).1
+def exRtSv2 : Server := runCmd exRtSv1 0 (.paramRouteF [[120], [121]] [some ⟨0, 1⟩])
+def exRtSv3 : Server := runCmd exRtSv2 0 .unparamRouteF
+
+example : RReach exRtSv2 := .cmd _ _ (.attach _ _ .init)
+example : RReach exRtSv3 := .cmd _ _ (.cmd _ _ (.attach _ _ .init))
+/-- the hypotheses of `default_route_is_parameters` hold in `exRtSv2`, and the route has two filtered entries -/
+example : (exRtSv2.sess? 0).map (fun s => (s.hasRouteKeys, s.routeKeys, pmNumFilters s.route)) =
+    some (true, [[120], [121]], 2) := by decide
+example : routePairs [[120], [121], [122]] [none, some ⟨0, 1⟩] none =
+    [([120], none), ([121], some ⟨0, 1⟩), ([122], some ⟨0, 1⟩)] := by decide
+/-- what the seeded change ("removing only the filter parameter does not rebuild the compiled route") would leave
+    behind differs observably from the coherent route -/
+example : pmNumFilters (buildRoute [[120], [121]] (some [some ⟨0, 1⟩])) = 2 ∧
+    pmNumFilters (buildRoute [[120], [121]] none) = 0 := by decide
 
 end Muscle.Props.C05
